@@ -115,14 +115,46 @@ def seeds_for(prop):
     return out
 
 
-def run_controls(prop, jobs=8):
+def neutrals_for(files):
+    """behaviour-preserving refactorings (written by independent agents, each confirmed to keep the test suite green) that touch
+    a file this property's rules analyse"""
+    import glob
+    out = []
+    for pf in sorted(glob.glob(os.path.join(VERIF, "neutral", "*", "*", "patch.diff"))):
+        touched = {l[6:].strip() for l in open(pf) if l.startswith("+++ b/")}
+        if files is None or touched & set(files):
+            out.append(os.path.dirname(pf))
+    return out
+
+
+def run_neutral(ndir, prop):
+    nid = "neutral:" + "/".join(ndir.split(os.sep)[-2:])
+    d = scratch_copy()
+    try:
+        p = subprocess.run(["patch", "-p1", "-s", "-i", os.path.join(ndir, "patch.diff")], cwd=d, capture_output=True, text=True)
+        if p.returncode != 0:
+            return {"id": nid, "status": "stale", "neutral": True, "detail": "patch no longer applies"}
+        env = dict(os.environ, HPBF_REPO=d, HPBF_NO_EVIDENCE="1", HPBF_NO_CONTROLS="1")
+        q = subprocess.run([os.path.join(VERIF, "check"), prop, "--tier", "quick"], env=env, capture_output=True, text=True)
+        fired = [l for l in q.stdout.splitlines() if l.strip().startswith("violation [")]
+        rules = sorted({l.split("[", 1)[1].split("]", 1)[0] for l in fired})
+        ok = q.returncode == 0 and not fired
+        return {"id": nid, "status": "killed" if ok else "missed", "neutral": True, "rules_fired": rules, "expected": [],
+                "first": fired[0].strip()[:300] if fired else "silent, as required"}
+    finally:
+        shutil.rmtree(d, ignore_errors=True)
+
+
+def run_controls(prop, jobs=12, files=None):
     from concurrent.futures import ThreadPoolExecutor
     ms = load(prop)
     sd = seeds_for(prop)
+    nt = neutrals_for(files)
     with ThreadPoolExecutor(max_workers=jobs) as ex:
         a = list(ex.map(lambda m: run_one(m, prop), ms))
         b = list(ex.map(lambda d: run_seed(d, prop), sd))
-    return a + b
+        c = list(ex.map(lambda d: run_neutral(d, prop), nt))
+    return a + b + c
 
 
 def run_all(prop, tier="quick", jobs=8):
